@@ -298,7 +298,7 @@ fn form(root: &Path, rel: &str, f: PathForm) -> PathBuf {
 }
 
 fn scenario(w: Work) {
-    let base = if Path::new("/dev/shm").is_dir() { PathBuf::from("/dev/shm") } else { std::env::temp_dir() };
+    let base = scratch_base();
     let dir = base.join(format!("simcheck-c12-{}-{}", std::process::id(), DIRNO.fetch_add(1, Ordering::Relaxed)));
     let _rm = RmOnDrop(dir.clone());
     let root = dir.join("watched");
